@@ -1,4 +1,5 @@
 import LiquidVerif.Lemmas.Lex
+import LiquidVerif.Lemmas.LexLiquid
 /-!
 # C10 — literal text, raw blocks, comments and whitespace control
 
@@ -217,6 +218,31 @@ theorem tokens_start_in_source (d : Delims) (ps : List Piece) (ts : List Token) 
     ∀ t ∈ ts, t.sliced = true → t.inSrc (assemble d ps) := by
   have := tokenize_slice d ps [] {} ts h
   simpa using this
+
+/-- **Start offsets inside `{% liquid %}`.** For a `liquid` tag anywhere in a template, every inner token that
+the line scanner of the tag (`_tokenize_liquid_expression`, model `LiquidLines.tokenizeLiquid`, run on the tag's
+expression with `token.start_index` of that expression as base) yields — tag names and their expressions, on any
+line, after any comment lines — is the slice of the *template* source at its start index. -/
+theorem liquid_inner_tokens_in_source (d : Delims) (pre post : List Piece) (l r : Bool) (ws0 ws1 e ws2 : Str)
+    (t : LiquidLines.Token)
+    (h : t ∈ (LiquidLines.tokenizeLiquid d.cmtS
+              (pieceMatch d (assemble d pre).length false (.tag l r ws0 kwLiquid ws1 e ws2)).exprStart e).1) :
+    ((assemble d (pre ++ .tag l r ws0 kwLiquid ws1 e ws2 :: post)).drop t.start).take t.value.length = t.value := by
+  obtain ⟨hb, hloc⟩ := liquid_token_located _ _ _ _ h
+  have hsrc : assemble d (pre ++ .tag l r ws0 kwLiquid ws1 e ws2 :: post) =
+      (assemble d pre ++ d.tagS ++ hy l ++ ws0 ++ kwLiquid ++ ws1) ++ (e ++ (ws2 ++ hy r ++ d.tagE ++ assemble d post)) := by
+    simp [assemble_append, assemble, Piece.src, List.append_assoc]
+  have hlen : (assemble d pre ++ d.tagS ++ hy l ++ ws0 ++ kwLiquid ++ ws1).length =
+      (pieceMatch d (assemble d pre).length false (.tag l r ws0 kwLiquid ws1 e ws2)).exprStart := by
+    simp [pieceMatch, List.length_append, Nat.add_assoc]
+  have := located_embed hloc (assemble d pre ++ d.tagS ++ hy l ++ ws0 ++ kwLiquid ++ ws1)
+    (ws2 ++ hy r ++ d.tagE ++ assemble d post)
+  rw [hlen, ← hsrc] at this
+  have hs : (pieceMatch d (assemble d pre).length false (.tag l r ws0 kwLiquid ws1 e ws2)).exprStart
+      + (t.start - (pieceMatch d (assemble d pre).length false (.tag l r ws0 kwLiquid ws1 e ws2)).exprStart) = t.start := by
+    omega
+  rw [hs] at this
+  exact LiquidVerif.SpanLex.located_slice this
 
 /-! ## non-vacuity: the hypotheses are met by concrete templates, including the two inputs that failed
 before the `fix:` commits -/
